@@ -10,20 +10,23 @@ import os
 
 
 def _stamps_of(ev):
-    for field in ("req", "applied"):
+    for field in ("req", "applied", "changed", "removed"):
         for k, ts in ev.get(field) or []:
             yield k, ts
-    post = ev.get("post")
-    if post:
+    for post in (ev.get("post"), ev.get("other")):
+        if not post:
+            continue
         for k, ts in post["ent"]:
             yield k, ts
         for k, ts in post["dead"]:
             yield k, ts
         for m in post["mx"]:
-            for _n, ts in m:
+            for n, ts in m:
                 yield None, ts
-        for _n, ts in post["safe"]:
+                yield None, [0, 0, n]
+        for n, ts in post["safe"]:
             yield None, ts
+            yield None, [0, 0, n]
 
 
 def load_sections(files):
@@ -38,7 +41,7 @@ def load_sections(files):
                 if not line or '"ks_' not in line:
                     continue
                 ev = json.loads(line)
-                if ev.get("ev") not in ("ks_spawn", "ks_op"):
+                if ev.get("ev") not in ("ks_spawn", "ks_op", "ks_diff"):
                     continue
                 a = ev["actor"]
                 if a not in per_actor:
@@ -50,7 +53,8 @@ def load_sections(files):
             if any(e.get("post") is None for e in evs):
                 skipped += 1        # a state too large to log
                 continue
-            if not any(e["ev"] == "ks_op" for e in evs):
+            evs = [e for e in evs if not (e["ev"] == "ks_diff" and e.get("other") is None)]
+            if not any(e["ev"] in ("ks_op", "ks_diff") for e in evs):
                 continue
             if evs[0]["ev"] != "ks_spawn":
                 # actors built by hand in unit tests start empty
@@ -82,12 +86,6 @@ def normalise(files, out_path, max_events=None):
                     keys.add(k)
                 times.add(ts[0])
                 nodes.add(ts[2])
-            post = ev["post"]
-            for m in post["mx"]:
-                for n, _ts in m:
-                    nodes.add(n)
-            for n, _ts in post["safe"]:
-                nodes.add(n)
     if len(fs) > 1:
         raise ValueError("several forgiveness periods in one trace: %r" % fs)
     f = fs.pop() if fs else 0
@@ -125,7 +123,7 @@ def normalise(files, out_path, max_events=None):
         return {"ent": keyed(p["ent"]), "dead": keyed(p["dead"]), "mx": mx, "safe": noded(p["safe"])}
 
     counts = {"spawn": 0, "set": 0, "del": 0, "mset": 0, "mdel": 0, "purge": 0, "skip": 0, "err": 0,
-              "purged_tombstones": 0, "src1": 0}
+              "purged_tombstones": 0, "src1": 0, "diff": 0, "diff_nonempty": 0}
     lines = [{"ev": "header", "keys": len(krank), "nodes": len(nrank), "mf": mf, "f": f}]
     for name, evs in sections:
         for ev in evs:
@@ -133,6 +131,12 @@ def normalise(files, out_path, max_events=None):
                 lines.append({"ev": "spawn", "file": name, "actor": ev["actor"], "name": ev.get("name", "?"),
                               "seq": ev["seq"], "post": post_(ev["post"])})
                 counts["spawn"] += 1
+            elif ev["ev"] == "ks_diff":
+                counts["diff"] += 1
+                if ev["changed"] or ev["removed"]:
+                    counts["diff_nonempty"] += 1
+                lines.append({"ev": "diff", "file": name, "actor": ev["actor"], "seq": ev["seq"], "other": post_(ev["other"]),
+                              "changed": items(ev["changed"]), "removed": items(ev["removed"]), "post": post_(ev["post"])})
             else:
                 counts[ev["kind"]] += 1
                 if ev["stored"] in ("skip", "err"):
